@@ -115,6 +115,7 @@ type gtTr struct {
 	ifaceKey   string              // sort key of the interface field last resolved by ifaceField
 	listKey    string              // ... and of the slice-of-nodes field last resolved by stringerList
 	autoFuel   map[ast.Node]string // fuel measures of loops the translator itself writes (range over a string)
+	callRename map[string]string   // during one call: prefixes of the callee's interface-method parameters -> the caller's
 	named      []string            // named results used as variables
 	loopCache  map[ast.Node]*loopCache
 	inMutCall  bool
@@ -823,6 +824,7 @@ func (tr *gtTr) call(c *ast.CallExpr, env *venv) ex {
 	}
 	var args []ex
 	var binds []gbind
+	var rename map[string]string
 	for i, a := range list {
 		if callee.params[i].typ.kind == kStruct {
 			// a struct (or pointer to struct) that the callee only reads: pass the fields it reads
@@ -840,11 +842,26 @@ func (tr *gtTr) call(c *ast.CallExpr, env *venv) ex {
 			}
 			continue
 		}
+		if pt := callee.params[i].typ; pt.kind == kOther && pt.ndir != "" {
+			// a parameter of a /repo interface type handed on to a helper: the callee has no binder for it, only the
+			// parameters m_<its name>_<Method> for the methods it calls; they are the caller's m_<argument>_<Method>
+			if id, ok := unparen(a).(*ast.Ident); ok {
+				if v := env.lookup(id.Name); v != nil && v.typ.kind == kOther && v.typ.ndir == pt.ndir && v.typ.nname == pt.nname && tr.isParam(id.Name) {
+					if rename == nil {
+						rename = map[string]string{}
+					}
+					rename["m_"+callee.params[i].goName+"_"] = "m_" + id.Name + "_"
+					continue
+				}
+			}
+		}
 		e := tr.expr(a, env)
 		binds = mergeBinds(binds, e.binds)
 		e.binds = nil
 		args = append(args, tr.checkArg(callee, i, e))
 	}
+	tr.callRename = rename
+	defer func() { tr.callRename = nil }()
 	tr.inMutCall = allowMut
 	defer func() { tr.inMutCall = false }()
 	return tr.applyFn(callee, args, binds)
@@ -860,8 +877,28 @@ func (tr *gtTr) applyFn(callee *gtFn, args []ex, binds []gbind) ex {
 	}
 	parts := []string{callee.coqName}
 	if !callee.abstract {
-		tr.inherit(callee)
-		parts = append(parts, callee.implicitArgs()...)
+		if len(tr.callRename) == 0 {
+			tr.inherit(callee)
+			parts = append(parts, callee.implicitArgs()...)
+		} else {
+			// the callee's interface-method parameters under the names of the caller's arguments
+			ren := func(n string) string {
+				for from, to := range tr.callRename {
+					if strings.HasPrefix(n, from) {
+						return to + n[len(from):]
+					}
+				}
+				return n
+			}
+			renamed := *callee
+			renamed.abstracts = nil
+			for _, a := range callee.abstracts {
+				a.name = ren(a.name)
+				renamed.abstracts = append(renamed.abstracts, a)
+			}
+			tr.inherit(&renamed)
+			parts = append(parts, renamed.implicitArgs()...)
+		}
 	}
 	for _, a := range args {
 		parts = append(parts, a.code)
@@ -922,6 +959,15 @@ func (tr *gtTr) fieldPath(v *gvar, path string) ex {
 }
 
 // inherit: the caller needs every implicit parameter of the callee.
+func (tr *gtTr) isParam(name string) bool {
+	for _, prm := range tr.fn.params {
+		if prm.goName == name {
+			return true
+		}
+	}
+	return false
+}
+
 func (tr *gtTr) inherit(callee *gtFn) {
 	if callee.usesV {
 		tr.fn.usesV = true
@@ -1145,6 +1191,26 @@ func (tr *gtTr) library(pkg, name string, c *ast.CallExpr, env *venv) ex {
 			gtFail("%s: arguments are not strings", full)
 		}
 		return ex{binds: mergeBinds(s.binds, nw.binds), code: "(go_replace_all " + bstrLit(old) + " " + nw.code + " " + s.code + ")", typ: tString}
+	case pkg == "strings" && name == "Join":
+		// strings.Join(strings.Split(s, old), new) with a non-empty constant old: every non-overlapping occurrence of old,
+		// from the left, replaced by new -- the same function as strings.Replace(s, old, new, -1), and translated as that
+		need(2)
+		inner, ok := unparen(c.Args[0]).(*ast.CallExpr)
+		if ok {
+			if p2, n2, isLib := tr.libCall(inner, env); isLib && p2 == "strings" && n2 == "Split" && len(inner.Args) == 2 {
+				old := tr.constString(inner.Args[1], env, "strings.Split")
+				if old == "" {
+					gtFail("strings.Split: empty separator")
+				}
+				s := tr.expr(inner.Args[0], env)
+				nw := tr.expr(c.Args[1], env)
+				if s.typ.kind != kString || nw.typ.kind != kString {
+					gtFail("%s: arguments are not strings", full)
+				}
+				return ex{binds: mergeBinds(s.binds, nw.binds), code: "(go_replace_all " + bstrLit(old) + " " + nw.code + " " + s.code + ")", typ: tString}
+			}
+		}
+		gtFail("strings.Join is in the subset only as strings.Join(strings.Split(s, <constant>), new)")
 	case (pkg == "strings" || pkg == "bytes") && (name == "Count" || name == "LastIndex" || name == "Index"):
 		need(2)
 		sep := tr.constStringOrBytes(c.Args[1], env, full)
@@ -1157,6 +1223,23 @@ func (tr *gtTr) library(pkg, name string, c *ast.CallExpr, env *venv) ex {
 		}
 		fn := map[string]string{"Count": "go_count_byte", "LastIndex": "go_last_index_byte", "Index": "go_index_byte"}[name]
 		return ex{binds: a.binds, code: fmt.Sprintf("(%s %d %s)", fn, sep[0], a.code), typ: basicInts["int"]}
+	case (pkg == "strings" || pkg == "bytes") && (name == "IndexByte" || name == "LastIndexByte"):
+		// strings.IndexByte(s, c) = strings.Index(s, string(c)) for a constant byte c
+		need(2)
+		cv, _, ok := tr.g.constEval(tr.p, tr.f, c.Args[1], -1, tr.isVar(env))
+		if !ok || cv.Kind() != constant.Int {
+			gtFail("%s: only a constant byte is in the subset", full)
+		}
+		cb, exact := constant.Int64Val(cv)
+		if !exact || cb < 0 || cb > 255 {
+			gtFail("%s: the byte is out of range", full)
+		}
+		a := tr.expr(c.Args[0], env)
+		if a.typ.kind != kString {
+			gtFail("%s: the first argument is not a string", full)
+		}
+		fn := map[string]string{"IndexByte": "go_index_byte", "LastIndexByte": "go_last_index_byte"}[name]
+		return ex{binds: a.binds, code: fmt.Sprintf("(%s %d %s)", fn, cb, a.code), typ: basicInts["int"]}
 	case pkg == "strconv" && name == "FormatBool":
 		need(1)
 		a := tr.expr(c.Args[0], env)
